@@ -17,6 +17,8 @@ import AcVerif.Pre.Builder
 import AcVerif.Cost
 import AcVerif.CostOverlap
 import AcVerif.PreScan
+import AcVerif.StreamCost
+import AcVerif.MemUsage
 import AcVerif.Compiler
 import AcVerif.DfaModel
 import AcVerif.DfaIds
@@ -314,6 +316,25 @@ def answerCost (r : Req) (c : Cfg) : String :=
     let isDfa := c.kind == "dfa" || c.kind == "tdfa" ||
       (c.kind == "auto" && c.sk != StartKind.both && P.length ≤ K.autoDfaLimit)
     let gate : Except MatchErr Unit := if c.isTop then enforceAnchored c.sk i.anch else .ok ()
+    if r.getD "api" "find" == "stream" then
+      -- a whole stream search: the matches and the number of bytes fed to the automaton
+      match r.bytes? "hay", r.nums? "sched" with
+      | some data, some sched =>
+        let rdr : Reader UInt8 := { data := data, sched := sched }
+        let spare := match r.nat? "spare", r.nat? "cap" with
+          | some sp, _ => some sp
+          | none, some cap => some (cap - max 1 A.maxLen)
+          | none, none => none
+        match gate with
+        | .error e => s!"{e.name} t=0"
+        | .ok () =>
+          match streamFind A rdr spare K.bufferMinFactor K.bufferDefaultCap,
+                streamTransitions A rdr spare K.bufferMinFactor K.bufferDefaultCap with
+          | .ok (ms, err, _), .ok t => s!"{fmtList (ms.map fmtMat ++ (if err then ["io-err"] else []))} t={t}"
+          | .error e, _ => s!"{e.name} t=0"
+          | _, .error e => s!"{e.name} t=0"
+      | _, _ => "bad-request:input"
+    else
     if r.getD "api" "find" != "find" then
       -- one overlapping call sequence: the counters of each call (`CostP.ovlCallsCost`)
       match gate with
@@ -376,6 +397,19 @@ def answerMeta (r : Req) (c : Cfg) : String :=
         | some (some _) => "1" | some none => "0" | none => "?"
       s!"n={A.patternsLen} min={A.minLen} max={A.maxLen} mk={mk} plens={nums (P.map List.length)} pre={pre}"
   | _, _ => "bad-request:meta"
+
+/-- `memusage`: `Automaton::memory_usage()` of a low-level automaton built without a prefilter -/
+def answerMemUsage (r : Req) (c : Cfg) : String :=
+  match r.list? "pats", MatchKind.parse (r.getD "mk" "std") with
+  | some P, some k =>
+    let fold := r.flag "fold"
+    if c.pf then "n/a"
+    else match c.kind with
+      | "nc" => s!"mem={nncMemoryUsage k fold (c.dd.getD 3) P}"
+      | "c" => s!"mem={contigMemoryUsage k fold (c.dd.getD 2) c.bc P}"
+      | "dfa" => s!"mem={dfaMemoryUsage k fold c.sk c.bc P}"
+      | _ => "n/a"
+  | _, _ => "bad-request:memusage"
 
 /-- `presound cand=<candidate as printed by the harness>`: is this candidate acceptable for the
 span, i.e. does it satisfy the soundness contract the engine relies on (C05)?  `cnone`: no
@@ -882,6 +916,7 @@ def respond (lineNo : Nat) (line : String) : List String :=
     | "packed" => ((r.getD "pcfg" "default").splitOn ";").map fun v => s!"{lineNo} {v} {answerPacked r v}"
     | "pre" => (cfgsOf r).map fun c => s!"{lineNo} {c.name} {answerPre r c}"
     | "meta" => (cfgsOf r).map fun c => s!"{lineNo} {c.name} {answerMeta r c}"
+    | "memusage" => (cfgsOf r).map fun c => s!"{lineNo} {c.name} {answerMemUsage r c}"
     | "threads" => (cfgsOf r).map fun c =>
         let hays := (r.getD "hays" "_").splitOn "|"
         let finds := hays.map fun h =>
